@@ -55,6 +55,18 @@ def violation_key(m):
             "what": m["kind"], "field": cfg["field"], "flags_in_stream": "+".join(feats) or "none"}
 
 
+def copy_repo_data(dst):
+    """Copy the repository's alignment test data into the work directory (pysam may create index
+    files next to a file it opens; nothing may be written into the tree under test)."""
+    src = os.path.join(env.REPO, "mchap", "tests", "test_io", "data")
+    shutil.rmtree(dst, ignore_errors=True)
+    os.makedirs(dst)
+    for f in os.listdir(src):
+        if f.startswith("simple.") and (".bam" in f or f.startswith("simple.fasta") or f.startswith("simple.vcf.gz") or f.startswith("simple.bed")):
+            shutil.copy2(os.path.join(src, f), os.path.join(dst, f))
+    return dst
+
+
 def main():
     ck = Check("C06")
     tier = ck.tier
@@ -63,6 +75,7 @@ def main():
     data_wd = os.path.join(ck.wd, "data")
     shutil.rmtree(data_wd, ignore_errors=True)
     os.makedirs(data_wd)
+    repo_data = copy_repo_data(os.path.join(ck.wd, "repo-data"))
     ck.rule = (
         "TLC explores every bag of <= 2 (wide alphabet) and <= 3 (narrow alphabet) abstract alignments and, per state, "
         "all configurations (MAPQ thresholds x keep-duplicate x keep-qcfail x keep-supplementary x read-group field x "
@@ -71,15 +84,52 @@ def main():
         "extract_read_variants / encode_sample_reads for every configuration. Non-trivial = state with >= 2 alignments "
         "and at least one matrix row; trace line = one alignment record or one implementation result."
     )
-    # ---- 1. model checking ------------------------------------------------
-    states = []
+    # ---- 1+2. model checking, and spec -> code replay of every state, one instance at a time ----
+    shapes = {}
+    n_states = [0]
+    keep_multi, keep_err = [], []   # reservoirs of states for the command-line subset
+    sample_state = []
+
+    def replay(states):
+        chunk = 60
+        tasks = [{"op": "replay", "states": states[i:i + chunk], "seed": ck.seed, "chunk": "%d-%d" % (n_states[0], i // chunk), "wd": data_wd}
+                 for i in range(0, len(states), chunk)]
+        res = pool.map_tasks("impl.c06", tasks, mode="jit")
+        for t, rr in zip(tasks, res):
+            if not rr["ok"]:
+                ck.machinery_failure("replay worker failed: %s\n%s" % (rr["error"], rr.get("tb", "")))
+            o = rr["result"]
+            ck.evaluations += o["evals"]
+            ck.nontrivial += o["nontrivial"]
+            ck.traces += o["states"]
+            for k, v in o["shapes"].items():
+                shapes[k] = shapes.get(k, 0) + v
+            for m in o["mismatch"]:
+                ck.violation(m["kind"], m, key=violation_key(m))
+        n_states[0] += len(states)
+        for s in states:
+            if len(s["hist"]) >= 2:
+                if len(keep_multi) < 400 or rnd.random() < 0.01:
+                    keep_multi.append(s)
+                if any(c["o"]["e"] for c in s["outs"]) and (len(keep_err) < 200 or rnd.random() < 0.01):
+                    keep_err.append(s)
+        if states and not sample_state:
+            sample_state.append(states[len(states) // 3])
+
+    if quick:
+        insts = [("MC_quick.cfg", "ReadExtract-wide"), ("MC_quick_deep.cfg", "ReadExtract-deep")]
+    else:
+        insts = [("MC_thorough.cfg", "ReadExtract-wideA"), ("MC_thorough_b.cfg", "ReadExtract-wideB"), ("MC_thorough_deep.cfg", "ReadExtract-deep")]
     try:
-        for cfg, label in (("MC_%s.cfg" % tier, "ReadExtract-wide"), ("MC_%s_deep.cfg" % tier, "ReadExtract-deep")):
-            r = tlc.run(SPEC, "ReadExtract", cfg, timeout=2400)
+        for cfg, label in insts:
+            r = tlc.run(SPEC, "ReadExtract", cfg, timeout=3000, keep_stdout=False)
             ck.add_tlc(r, label)
             if r.violated:
                 ck.violation("model", {"cfg": cfg, "invariant": r.violated, "text": r.error_text[:1500]}, key={"model": "ReadExtract"})
-            states.extend(r.printed)
+            states = [s for s in r.printed if s["hist"]]
+            del r
+            replay(states)
+            del states
         killed = 0
         for inv in ("MutRowsPerAlignment", "MutLastCallWins", "MutMapqExclusive"):
             m = tlc.run(SPEC, "ReadExtract", "Mutant_%s.cfg" % inv)
@@ -101,40 +151,23 @@ def main():
         sf = os.path.join(ck.wd, "streams.json")
         with open(sf, "w") as fh:
             json.dump(streams, fh)
-        rd = tlc.run(SPEC, "DrivenReadExtract", "Driven.cfg", extra_env={"STREAMS_FILE": sf}, timeout=2400)
+        rd = tlc.run(SPEC, "DrivenReadExtract", "Driven.cfg", extra_env={"STREAMS_FILE": sf}, timeout=3000, keep_stdout=False)
         ck.add_tlc(rd, "DrivenReadExtract")
         if rd.violated:
             ck.violation("model", {"cfg": "Driven.cfg", "invariant": rd.violated, "text": rd.error_text[:1500]}, key={"model": "DrivenReadExtract"})
         driven = [s for s in rd.printed if s["hist"]]
+        del rd
         ck.note("driven_streams", len(streams))
+        replay(driven)
+        del driven
     except tlc.TLCError as e:
         ck.machinery_failure(str(e))
-    states = [s for s in states if s["hist"]] + driven
-
-    # ---- 2. spec -> code: every state -> BAMs -> extractor -------------------
-    chunk = 60
-    tasks = [{"op": "replay", "states": states[i:i + chunk], "seed": ck.seed, "chunk": i // chunk, "wd": data_wd}
-             for i in range(0, len(states), chunk)]
-    res = pool.map_tasks("impl.c06", tasks, mode="jit")
-    shapes = {}
-    for t, rr in zip(tasks, res):
-        if not rr["ok"]:
-            ck.machinery_failure("replay worker failed: %s\n%s" % (rr["error"], rr.get("tb", "")))
-        o = rr["result"]
-        ck.evaluations += o["evals"]
-        ck.nontrivial += o["nontrivial"]
-        ck.traces += o["states"]
-        for k, v in o["shapes"].items():
-            shapes[k] = shapes.get(k, 0) + v
-        for m in o["mismatch"]:
-            ck.violation(m["kind"], m, key=violation_key(m))
-    ck.note("replayed_states", len(states))
+    ck.note("replayed_states", n_states[0])
     ck.note("realised_cigar_shapes", shapes)
-    ck.sample({"kind": "state", "hist": states[len(states) // 3]["hist"], "n_config_classes": len(states[len(states) // 3]["outs"])})
+    ck.sample({"kind": "state", "hist": sample_state[0]["hist"], "n_config_classes": len(sample_state[0]["outs"])})
 
     # ---- 3. command line level (subset) --------------------------------------
-    multi = [s for s in states if len(s["hist"]) >= 2]
-    with_err = [s for s in multi if any(c["o"]["e"] for c in s["outs"])]
+    multi, with_err = keep_multi, keep_err
     pick = rnd.sample(multi, min(len(multi), 12 if quick else 90)) + rnd.sample(with_err, min(len(with_err), 4 if quick else 30))
     ctasks = []
     for i in range(0, len(pick), 4):
@@ -169,7 +202,7 @@ def main():
     ck.note("cli_runs_expecting_error", n_cli_err + sum(1 for c in ref_cases if c["fails"]))
 
     # ---- 4. code -> spec: walker-abstracted real BAMs through TraceReadExtract ----
-    rtasks = [{"op": "record_repo", "repo": env.REPO, "seed": ck.seed + i, "tid0": 1000 * i, "bams": [b],
+    rtasks = [{"op": "record_repo", "data": repo_data, "seed": ck.seed + i, "tid0": 1000 * i, "bams": [b],
                "cfgs_per_locus": 3 if quick else 10} for i, b in enumerate(REPO_BAMS)]
     nrand = 6 if quick else 40
     for i in range(nrand):
